@@ -122,7 +122,16 @@ def acquire_sites(p, fi):
                 idx = summ[callee.qual]
         if kind is None:
             continue
-        out.append((n, kind, parents_with.get(id(n)), idx))
+        ws = parents_with.get(id(n))
+        par = getattr(n, "_parent", None)
+        if ws is None and isinstance(par, ast.Call) and isinstance(par.func, ast.Attribute) and par.func.attr == "enter_context" \
+                and isinstance(par.func.value, ast.Name) and par.func.value.id in _exitstack_names(par) and par.args and par.args[0] is n:
+            # stack.enter_context(open(...)): released when the enclosing ExitStack block is left
+            cur = getattr(par, "_parent", None)
+            while cur is not None and not isinstance(cur, (ast.With, ast.AsyncWith)):
+                cur = getattr(cur, "_parent", None)
+            ws = cur
+        out.append((n, kind, ws, idx))
     return out
 
 
@@ -255,12 +264,45 @@ def _handle_var_of(stmt, call, idx):
     return None
 
 
+def _exitstack_names(node):
+    """names bound by an enclosing `with contextlib.ExitStack() as <name>` (the clean-up runs when that block is left,
+    normally or through an exception)"""
+    out = set()
+    cur = getattr(node, "_parent", None)
+    while cur is not None:
+        if isinstance(cur, (ast.With, ast.AsyncWith)):
+            for it in cur.items:
+                ce = it.context_expr
+                if isinstance(ce, ast.Call) and ast.unparse(ce.func).split(".")[-1] in ("ExitStack", "closing") \
+                        and isinstance(it.optional_vars, ast.Name):
+                    out.add(it.optional_vars.id)
+        cur = getattr(cur, "_parent", None)
+    return out
+
+
+def _registered_close(sub):
+    """`<stack>.callback(<v>.close)` / `<stack>.push(<v>)` / `<stack>.enter_context(<v>)` on an enclosing ExitStack:
+    returns v (the close is guaranteed from here on), else None"""
+    if not (isinstance(sub, ast.Call) and isinstance(sub.func, ast.Attribute) and isinstance(sub.func.value, ast.Name) and sub.args):
+        return None
+    if sub.func.value.id not in _exitstack_names(sub):
+        return None
+    a = sub.args[0]
+    if sub.func.attr == "callback" and isinstance(a, ast.Attribute) and a.attr == "close" and isinstance(a.value, ast.Name):
+        return a.value.id
+    if sub.func.attr in ("push", "enter_context") and isinstance(a, ast.Name):
+        return a.id
+    return None
+
+
 def _stmt_closes(astnode, var):
-    """does the statement contain var.close() ?"""
+    """does the statement contain var.close() - or register it with an enclosing ExitStack ?"""
     for sub in walk_expr_shallow(astnode):
         if isinstance(sub, ast.Call) and isinstance(sub.func, ast.Attribute) and sub.func.attr == "close":
             if isinstance(sub.func.value, ast.Name) and sub.func.value.id == var:
                 return True
+        if _registered_close(sub) == var:
+            return True
     return False
 
 
@@ -459,6 +501,8 @@ def rule_caller_owned(ctx):
                 if (isinstance(sub, ast.Call) and isinstance(sub.func, ast.Attribute) and sub.func.attr == "close"
                         and isinstance(sub.func.value, ast.Name)):
                     close_nodes.append((node.id, sub.func.value.id, sub))
+                elif isinstance(sub, ast.Call) and _registered_close(sub):
+                    close_nodes.append((node.id, _registered_close(sub), sub))
         if not close_nodes:
             n += 1
             ctx.ok("IO.CALLER-OWNED", q + "#no-close", fi, fi.node,
